@@ -256,6 +256,7 @@ package graphql
 //@   keeps map[string]*Fragment, map[string]*ast.FragmentDefinition
 //@   call mapupdate assert fresh(arg0)                       // C18: Parse only writes maps it allocated - never the caller's variables
 //@   call valueToJson assert vars[name] == nil && arg1 == nil   // C18: a variable's default is evaluated only when no non-null value was supplied
+//@   call parseSelectionSet assert defaultedVars != nil ==> arg2 == defaultedVars      // C18 / C19: fragment definitions and the operation are both bound with the variables after defaulting
 //@   loop 2 invariant (defaultedVars == nil || fresh(defaultedVars)) && (forall k string :: vars[k] == old(vars[k]))
 // ... and is used whenever none was: every nullable variable seen so far that has a default and no non-null value got its default stored
 //@   ghost dflt map[string]bool
